@@ -358,6 +358,19 @@ def check_r2(prop, tier, seed, spec):
         totals["transitions"] += r["transitions"]
         log("[%s] R1 %s/%s: %d distinct states, %.0fs" % (prop, r["spec"], r["cfg"], r["states"], r["wall"]))
 
+    lemmas = []
+    for lm in spec.get("apalache", []):
+        if tier not in lm.get("tiers", ("quick", "thorough")):
+            continue
+        odir = os.path.join(wdir, "apalache")
+        out, dt = run(["apalache-mc", "check", "--init=Init", "--inv=" + lm["inv"], "--length=0", "--out-dir=" + odir, os.path.join(TLA, lm["spec"])],
+                      cwd=os.path.dirname(os.path.join(TLA, lm["spec"])), timeout=lm.get("timeout", 900), check=False)
+        ok = "The outcome is: NoError" in out
+        lemmas.append(dict(spec="tla/" + lm["spec"], invariant=lm["inv"], discharged=ok, tool="Apalache 0.58 (SMT, unbounded integers, word size 2^64)", wall=round(dt, 1)))
+        shutil.rmtree(odir, ignore_errors=True)
+        if not ok:
+            raise ToolError("Apalache did not discharge %s of %s:\n%s" % (lm["inv"], lm["spec"], out[-2000:]))
+        log("[%s] Apalache: %s of tla/%s holds for all words at W=64 (%.0fs)" % (prop, lm["inv"], lm["spec"], dt))
     # report
     for fid, cnt in sorted(known.items()):
         f = [x for x in findings if x["id"] == fid][0]
@@ -385,7 +398,7 @@ def check_r2(prop, tier, seed, spec):
         events_validated=totals["events"], evaluations=totals["events"], distinct_nontrivial=nontrivial,
         rule="every public call recorded by the harness (structured limbs, constructive families, exhaustive small parameters; two build profiles) is one trace event validated by TLC against the TLA+ contract; distinct = distinct (inputs, outcome) after removing the form label; non-trivial = " + NONTRIV_RULE,
         forms_exercised=len(forms), outcomes=outcome_counts, samples=samples, r1_models=r1_results,
-        rejected_events=len(violations) + sum(known.values()), known_findings_matched=known, path_coverage=path_cov,
+        rejected_events=len(violations) + sum(known.values()), known_findings_matched=known, path_coverage=path_cov, word_lemmas_at_W64=lemmas,
         exhaustive=False)
     write_evidence(prop, tier, seed, "model_checking", coverage, spec.get("assumptions", []), time.time() - t0, len(violations))
     return 1 if violations else 0
